@@ -339,7 +339,6 @@ storage {
     owner: b256 = 0x0202020202020202020202020202020202020202020202020202020202020202,
     origin: Point = Point { x: 1, y: 2 },
     kind: Kind = Kind::B(9),
-    flags: [bool; 3] = [true, false, true],
     balances: StorageMap<b256, u64> = StorageMap {},
     points: StorageMap<u64, Point> = StorageMap {},
     history: StorageVec<u64> = StorageVec {},
@@ -759,6 +758,53 @@ fn run(a: &vhcore::Args) -> i32 {
         }
     }
     let mut evaluations = build_ms.len() as u64;
+
+    // ---- audit of one real build under strace: which randomness / threads does a build use?
+    if Command::new("strace").arg("-V").output().map(|o| o.status.success()).unwrap_or(false) {
+        let p = &pkgs[2];
+        let tr = ctx.work.join("audit.trace");
+        let log = ctx.work.join("audit.shim.log");
+        let out = ctx.work.join("runs").join("audit.json");
+        let mut cmd = Command::new("strace");
+        cmd.arg("-f").arg("-o").arg(&tr).arg("-e").arg("trace=getrandom,clone,clone3,fork,vfork,openat").arg(&ctx.exe);
+        cmd.arg("build-once").arg(&p.dir).arg(&out).arg("release");
+        cmd.env_clear()
+            .env("PATH", std::env::var("PATH").unwrap_or_else(|_| "/usr/bin:/bin".into()))
+            .env("HOME", &ctx.home)
+            .env("LD_PRELOAD", &ctx.shim)
+            .env("VERIF_SEED", "1")
+            .env("VERIF_SHIM_LOG", &log)
+            .stdin(Stdio::null())
+            .stdout(Stdio::null())
+            .stderr(Stdio::null());
+        if let Ok(child) = cmd.spawn() {
+            if wait_with_timeout(child, Duration::from_secs(900)).is_some() {
+                let t = String::from_utf8_lossy(&std::fs::read(&tr).unwrap_or_default()).to_string();
+                let residual: Vec<&str> = t.lines().filter(|l| l.contains(" getrandom(")).collect();
+                let threads = t.lines().filter(|l| l.contains(" clone(") || l.contains(" clone3(") || l.contains(" fork(") || l.contains(" vfork(")).count();
+                let urandom = t.lines().filter(|l| l.contains("/dev/urandom") || l.contains("/dev/random")).count();
+                let calls: u64 = std::fs::read_to_string(&log).unwrap_or_default().lines().filter_map(|l| l.trim().parse::<u64>().ok()).sum();
+                rep.set(
+                    "build_audit",
+                    json!({
+                        "package": p.name,
+                        "randomness_requests_answered_by_the_shim": calls,
+                        "getrandom_syscalls_that_bypassed_the_shim": residual.len(),
+                        "bypassing_calls": residual.iter().take(3).map(|l| vhcore::truncate(l, 120)).collect::<Vec<_>>(),
+                        "opens_of_dev_urandom": urandom,
+                        "threads_or_processes_spawned_by_the_build": threads,
+                    }),
+                );
+                if calls == 0 {
+                    vhcore::machinery_failure("audit: the build never asked the shim for randomness — the hash-seed dimension would be vacuous");
+                }
+                if urandom > 0 {
+                    vhcore::machinery_failure("audit: the build reads /dev/urandom, which the shim does not control");
+                }
+            }
+        }
+        let _ = std::fs::remove_file(&out);
+    }
 
     if thorough {
         // e2e packages: deterministic stride over the sorted list, first 20 that build offline
